@@ -73,6 +73,22 @@ CHECKS = {
          'place (also through local aliases), and the max_split bound is maintained on every separator path.'),
    note='The partition identity (joining parts reproduces the source) is value-level and is not decided; user separator callables are outside the rule.',
    technique='AST slice/position agreement, sibling-branch type agreement, alias-aware in-place mutation analysis, path enumeration for the max_split bound'),
+ 'C04': dict(level='other', design='DESIGN.md section 5, C04',
+   text=('Structural conditions of the documented encoder semantics decided on the source: the rule sequence is '
+         'appended in input order and compiled one-to-one (never re-bound, merged, sorted or synthesised), the main loop '
+         'is first-match and every path of one iteration consumes exactly once (helper summaries for skip-ascii, '
+         '_apply_replacement, the three _apply_rule_* kinds and both fallback arms), rule-level protection wins, policy and '
+         'protection names resolve to methods, only the fail policy raises and the partial encoder contains token errors, '
+         'NFC precedes the loop, regex rules match in place, and the module-level encoder cache key covers every option.'),
+   note='Agreement with an executable reference semantics on concrete strings is not decided; user callables/regexes are outside the rule.',
+   technique='AST path/shape analysis of the encoder main loop with per-helper consumption summaries; cache-key completeness; raise-site audit'),
+ 'C13': dict(level='other', design='DESIGN.md section 5, C13',
+   text=('Both built-in tables are evaluated entry by entry on every run (3745 entries: balanced braces, even unescaped $, no '
+         'unescaped %, no \\begin/\\end, ASCII only; the ten active characters neutralised), and the protection methods, '
+         'unknown-character policies, fallback arm, non_ascii_only bound and the cached module-level helper are checked '
+         'for shape.'),
+   note='Necessary conditions only: that every concatenation of replacements and copied input parses in strict mode is not decided.',
+   technique='evaluation of the literal encoder tables against inertness predicates + AST shape rules on policies/protection/fallback arm'),
 }
 
 NOT_YET = {}
